@@ -560,7 +560,9 @@ func filelist(h FileLister, r *Request, pkt requestPacket) responsePacket {
 			nameAttrs = append(nameAttrs, &sshFxpNameAttr{
 				Name:     fi.Name(),
 				LongName: runLs(idLookup, fi),
-				Attrs:    []any{fi},
+				// encoded now: the reply is marshalled later, and the handler's
+				// FileInfo may report another state by then
+				Attrs: []any{marshalFileInfo(nil, fi)},
 			})
 		}
 
@@ -615,8 +617,9 @@ func filestat(h FileLister, r *Request, pkt requestPacket) responsePacket {
 			return statusFromError(pkt.id(), err)
 		}
 		return &sshFxpStatResponse{
-			ID:   pkt.id(),
-			info: finfo[0],
+			ID:    pkt.id(),
+			info:  finfo[0],
+			attrs: marshalFileInfo(nil, finfo[0]),
 		}
 	case "Readlink":
 		if err != nil && !errors.Is(err, io.EOF) {
